@@ -360,6 +360,8 @@ class Policy:
             s = self._take("suggest")
             if s is None:
                 s = ["start", [[0.0 if not self.sim else 1.0, payload(trial_id, 0, 0)]]]
+        elif self.rng.random() < self.p.get("p_none", 0.0):
+            s = ["none"]      # the scheduler has nothing more to suggest (Tuner: configuration space exhausted)
         else:
             if self.paused and self.rng.random() < self.p.get("p_resume", 0.5):
                 tid = self.rng.choice(self.paused)
@@ -686,7 +688,7 @@ def check_delivery(obs):
 
 def gen_tuner_case(rng, sim):
     lates = rng.choice([[0], [0], [0, 0, 1], [0, 1, 2]])
-    prm = dict(composer=rng.choice(["no_composer", "no_composer", "dict_always", "none_always", "none_odd", "none_until_completion"]),
+    prm = dict(p_none=rng.choice([0.0, 0.0, 0.05, 0.15]), composer=rng.choice(["no_composer", "no_composer", "dict_always", "none_always", "none_odd", "none_until_completion"]),
                sjwd=True if sim else rng.random() < 0.7, p_pause=rng.choice([0.1, 0.25, 0.4]), p_stop=rng.choice([0.05, 0.12, 0.25]),
                p_resume=rng.choice([0.2, 0.5, 0.9]), lates=lates, ties=rng.choice([0.0, 0.0, 0.2]))
     if sim:
@@ -728,6 +730,9 @@ def tuner_cases(ctx, replay, sim):
             ctx.h(kind + "_worker_acts_between_reads", min(obs.get("mids", 0), 5))
             ctx.h(kind + "_start_jobs_without_delay", case["params"].get("sjwd", True))
         ctx.h(kind + "_results_log_composer", case["params"].get("composer", "no_composer"))
+        sg = obs["script"]["suggest"]
+        ctx.h(kind + "_space_exhausted", "no" if ["none"] not in sg else
+              "after_a_start_in_the_same_call" if len(sg) >= 2 and sg[-2][0] != "none" else "yes")
         if obs["crash"]:
             # the scripts are legal (the scheduler only resumes paused trials, ...): tuning that aborts delivers nothing more
             ctx.violation("property", "Tuner.run raised on a scripted run (%s): %s" % (kind, obs["crash"]), case=rcase,
